@@ -32,6 +32,7 @@ type NativeResult struct {
 	Distinct   int      `json:"distinct_traces"`
 	Skipped    int      `json:"assume_failed"`
 	Panic      string   `json:"panic,omitempty"`
+	LastTrace  []string `json:"last_trace,omitempty"`
 }
 
 var props = map[string]bool{}
@@ -110,6 +111,7 @@ func RunCases(t *testing.T, entries map[string]interface{}) {
 				}
 				break
 			}
+			res.LastTrace = append([]string(nil), Trace...)
 			if c.Want != "" {
 				for _, f := range Failed {
 					if f == c.Want {
@@ -139,6 +141,7 @@ func RunCases(t *testing.T, entries map[string]interface{}) {
 		res.Distinct = len(seen)
 		results = append(results, res)
 	}
+	cleanTemp()
 	sort.SliceStable(results, func(i, j int) bool { return results[i].ID < results[j].ID })
 	out, _ := json.MarshalIndent(results, "", " ")
 	if p := os.Getenv("VERIF_OUT"); p != "" {
